@@ -109,6 +109,37 @@ def gen_C03(rng, tier, cfg):
                 ops.append("guts get 0 1")
                 stats["guts_ops"] += 4
 
+    # every counter at which a lane of the 4-block batch, or the position written back, carries out of the low
+    # word or out of 64 bits: low word 2^32-8 … 2^32-1 and the full 64 bits 2^64-8 … 2^64-1 (a backend- or
+    # feature-specific counter helper that carries one step early or late shows only at ONE of these)
+    key = struct_bytes(rng, 32)
+    nonce = struct_bytes(rng, 8)
+    for hi in (0, 2**32 - 1):
+        for lo in range(2**32 - 8, 2**32):
+            ctr = (hi << 32) | lo
+            for be in bes:
+                ops.append("cfg backend %s" % be)
+                ops.append("guts new 0 %s %s" % (hx(key), hx(nonce)))
+                ops.append("guts set 0 0 %d" % ctr)
+                ops.append("guts refill4 0 %d" % (4 if quick else rng.choice([4, 6, 10])))
+                ops.append("guts get 0 0")
+                ops.append("guts get 0 1")
+                ops.append("guts refill 0 4")
+                ops.append("guts get 0 0")
+                stats["guts_ops"] += 5
+    # the same through the cipher API: a 64-bit cipher and the IETF cipher reading across block 2^32 - k
+    for v in ("chacha20", "ietf", "xchacha8"):
+        nn = struct_bytes(rng, NONCE[v])
+        for k in range(1, 9):
+            start = (2**32 - k) * 64 - rng.choice([0, 5])
+            for be in bes:
+                ops.append("cfg backend %s" % be)
+                ops.append("chacha new 0 %s %s %s" % (v, hx(key), hx(nn)))
+                ops.append("chacha seek 0 u64 %d" % start)
+                ops.append("chacha applypat 0 %d 4" % (k * 64 + 256 + 70 if v != "ietf" else min(k * 64, 600)))
+                ops.append("chacha pos 0 u128")
+                stats["chacha_ops"] += 4
+
     # ---- (3) BLAKE digests (dispatching `Compressor::put_block` / `finalize`), identical script per backend
     for bits, blk in BLAKE.items():
         base = [0, 1, blk - 9 if bits <= 256 else blk - 17, blk - 1, blk, blk + 1, 2 * blk, 3 * blk + 7]
